@@ -69,6 +69,16 @@ Qed.
 
 Section FluentProofs.
 Context (reLead reTrail : rx).
+Hypothesis Htrim : trim_ok reLead reTrail.
+
+Lemma junk_trim : forall (s : str) a b, a < b -> b <= length s ->
+  lead reLead (trim_content (slice s a b)) + trail reTrail (trim_content (slice s a b)) < b - a.
+Proof.
+  intros s a b Hab Hb.
+  assert (Hl : length (slice s a b) = b - a).
+  { unfold slice. rewrite firstn_length, skipn_length. lia. }
+  rewrite <- Hl. apply Htrim. intros E. rewrite E in Hl. simpl in Hl. lia.
+Qed.
 
 Lemma gap_chain : forall a b, a <= b -> chain a (gap false a b) b.
 Proof.
@@ -92,7 +102,7 @@ Proof. intros a b. unfold gap. simpl. destruct (a <? b); reflexivity. Qed.
 
 (* ---- the walk tiles [last, length s) ---------------------------------------- *)
 Lemma walk_fluent_chain : forall s body last,
-  body_ok reLead reTrail s last body ->
+  body_ok s last body ->
   chain last (walk_fluent_from reLead reTrail false last body (length s)) (length s).
 Proof.
   intros s. induction body as [|e rest IH]; intros last H; simpl in *.
@@ -104,9 +114,9 @@ Proof.
     destruct (f_kind e).
     + apply chain_one; [reflexivity|reflexivity|exact Hab].
     + apply chain_one; [reflexivity|reflexivity|exact Hab].
-    + destruct Hok as [_ Hlt].
-      set (l := lead reLead (f_content e)) in *.
-      set (t := trail reTrail (f_content e)) in *.
+    + pose proof (junk_trim s _ _ Hab Hb) as Hlt. rewrite <- Hok in Hlt.
+      set (l := lead reLead (trim_content (f_content e))) in *.
+      set (t := trail reTrail (trim_content (f_content e))) in *.
       eapply chain_app; [apply gap_chain; lia|].
       simpl. split; [reflexivity|]. split; [lia|].
       apply gap_chain. lia.
@@ -115,7 +125,7 @@ Proof.
 Qed.
 
 Lemma walk_fluent_spans_inside : forall s body last,
-  body_ok reLead reTrail s last body ->
+  body_ok s last body ->
   Forall spans_inside (walk_fluent_from reLead reTrail false last body (length s)).
 Proof.
   intros s. induction body as [|e rest IH]; intros last H; simpl in *.
@@ -153,7 +163,7 @@ Proof.
 Qed.
 
 Lemma walk_fluent_from_lossless : forall s body last,
-  body_ok reLead reTrail s last body ->
+  body_ok s last body ->
   let es := walk_fluent_from reLead reTrail false last body (length s) in
   length es <= length s - last /\
   concat (map (all_text s) es) = skipn last s /\
@@ -174,7 +184,7 @@ Proof.
 Qed.
 
 Theorem walk_fluent_lossless : forall s body,
-  body_ok reLead reTrail s 0 body -> lossless_fluent reLead reTrail s body.
+  body_ok s 0 body -> lossless_fluent reLead reTrail s body.
 Proof.
   intros s body H. unfold lossless_fluent, walk_fluent.
   destruct (walk_fluent_from_lossless s body 0 H) as [H1 [H2 [H3 [H4 H5]]]].
